@@ -27,11 +27,11 @@ type lin struct {
 	t map[string]*big.Rat
 }
 
-func newLin() lin                 { return lin{c: new(big.Rat), t: map[string]*big.Rat{}} }
-func linConst(k int64) lin        { l := newLin(); l.c.SetInt64(k); return l }
-func linAtom(a string) lin        { l := newLin(); l.t[a] = big.NewRat(1, 1); return l }
-func (a lin) add(b lin) lin       { return a.comb(b, big.NewRat(1, 1)) }
-func (a lin) sub(b lin) lin       { return a.comb(b, big.NewRat(-1, 1)) }
+func newLin() lin           { return lin{c: new(big.Rat), t: map[string]*big.Rat{}} }
+func linConst(k int64) lin  { l := newLin(); l.c.SetInt64(k); return l }
+func linAtom(a string) lin  { l := newLin(); l.t[a] = big.NewRat(1, 1); return l }
+func (a lin) add(b lin) lin { return a.comb(b, big.NewRat(1, 1)) }
+func (a lin) sub(b lin) lin { return a.comb(b, big.NewRat(-1, 1)) }
 func (a lin) comb(b lin, f *big.Rat) lin {
 	r := newLin()
 	r.c.Set(a.c)
@@ -73,7 +73,7 @@ type ineq struct {
 	why string
 }
 
-func leq(a, b lin, why string) ineq { return ineq{a.sub(b), why} }             // a <= b
+func leq(a, b lin, why string) ineq { return ineq{a.sub(b), why} }                  // a <= b
 func lt(a, b lin, why string) ineq  { return ineq{a.sub(b).add(linConst(1)), why} } // a < b (integers)
 
 // entails: do the facts imply goal (g.e <= 0)? Checked as unsatisfiability of facts + (g.e >= 1).
@@ -160,14 +160,14 @@ func fmUnsat(sys []ineq) bool {
 // ---- the prover -----------------------------------------------------------------------
 
 type prover struct {
-	c        *Ctx
-	fn       *ssa.Function
-	writers  map[string]map[*ssa.Function]bool // "Type.field" -> functions that may write it (transitively)
-	depth    int
-	axioms   []ineq
-	seenAx   map[string]bool
-	notes    []string
-	typeInv  map[string]int64 // "Type.field" -> minimal length guaranteed by a checked type invariant
+	c       *Ctx
+	fn      *ssa.Function
+	writers map[string]map[*ssa.Function]bool // "Type.field" -> functions that may write it (transitively)
+	depth   int
+	axioms  []ineq
+	seenAx  map[string]bool
+	notes   []string
+	typeInv map[string]int64 // "Type.field" -> minimal length guaranteed by a checked type invariant
 }
 
 type boundsEngine struct {
@@ -706,8 +706,67 @@ func (p *prover) linOf(v ssa.Value, d int) lin {
 		if pth, ok := AccessPath(y); ok {
 			return linAtom("v:path:" + pth)
 		}
+	case *ssa.Parameter:
+		p.sortLessContract(y, d)
 	}
 	return linAtom("v:" + regID(v))
+}
+
+// sortLessContract: library contract of sort.Slice / sort.SliceStable — the less function is called
+// with 0 <= i, j < len(x) of the slice x that was passed. Applies when the parameter belongs to a
+// function literal used only as the less argument of one such call, and the literal reads the
+// slice through the same variable the call passed (and does not assign it).
+func (p *prover) sortLessContract(par *ssa.Parameter, d int) {
+	g := par.Parent()
+	if g == nil || g.Parent() == nil || len(g.Params) != 2 || (par != g.Params[0] && par != g.Params[1]) {
+		return
+	}
+	var mc *ssa.MakeClosure
+	var call *ssa.Call
+	n := 0
+	Instrs(g.Parent(), false, func(in ssa.Instruction) {
+		if m, ok := in.(*ssa.MakeClosure); ok && m.Fn == ssa.Value(g) {
+			mc = m
+			n++
+		}
+	})
+	if n != 1 || mc.Referrers() == nil || len(*mc.Referrers()) != 1 {
+		return
+	}
+	call, _ = (*mc.Referrers())[0].(*ssa.Call)
+	if call == nil {
+		return
+	}
+	f := call.Call.StaticCallee()
+	if f == nil || (f.String() != "sort.Slice" && f.String() != "sort.SliceStable") || call.Call.Args[1] != ssa.Value(mc) {
+		return
+	}
+	mi, ok := call.Call.Args[0].(*ssa.MakeInterface)
+	if !ok {
+		return
+	}
+	a := linAtom("v:" + regID(par))
+	for k, fv := range g.FreeVars {
+		b := mc.Bindings[k]
+		switch {
+		case b == mi.X:
+			// slice captured by value
+			p.axiom(leq(linConst(0), a, f.Name()+" calls less with i, j >= 0"))
+			p.axiom(leq(a, p.lenOf(fv, d+1).sub(linConst(1)), f.Name()+" calls less with i, j < len(x)"))
+		default:
+			ld, isLoad := mi.X.(*ssa.UnOp)
+			if !isLoad || ld.Op != token.MUL || ld.X != b || closureWritesCell(g, fv) {
+				continue
+			}
+			// slice variable captured by reference, passed as its current value, not assigned by the literal
+			p.axiom(leq(linConst(0), a, f.Name()+" calls less with i, j >= 0"))
+			for _, ref := range *fv.Referrers() {
+				if u, ok := ref.(*ssa.UnOp); ok && u.Op == token.MUL {
+					p.axiom(leq(a, p.lenOf(u, d+1).sub(linConst(1)), f.Name()+" calls less with i, j < len(x)"))
+				}
+			}
+		}
+	}
 }
 
 // condFacts: linear facts from one branch condition with its truth value.
